@@ -20,7 +20,7 @@ EXPLANATION = (
     "name - R8 - are followed to their consumer).")
 ASSUMPTIONS = ["program_options::variables_map::count(k) > 0 iff option k was given", "${ENV:default} placeholders in the default ini are expanded by the ini module from the environment"]
 THOROUGH_CONFIGS = [["-UNDEBUG", "-DPIKA_DEBUG"]]
-FLOORS = {"C16.R11": 1, "C16.R12": 8, "C16.R1": 11, "C16.R2": 10, "C16.R3": 8, "C16.R4": 3, "C16.R6": 1, "C16.R7": 1, "C16.R8": 1, "C16.R9": 8, "C16.R10": 1, "C16.R13": 5, "C16.R14": 12, "C16.R15": 1, "C16.R16": 6, "C16.R17": 3, "C16.R18": 7}
+FLOORS = {"C16.R11": 1, "C16.R12": 10, "C16.R1": 11, "C16.R2": 10, "C16.R3": 8, "C16.R4": 3, "C16.R6": 1, "C16.R7": 1, "C16.R8": 1, "C16.R9": 8, "C16.R10": 1, "C16.R13": 5, "C16.R14": 12, "C16.R15": 1, "C16.R16": 6, "C16.R17": 3, "C16.R18": 7}
 
 SETTINGS = [  # (command line option, ini key, environment variable, handler)
     ("pika:threads", "pika.os_threads", "PIKA_THREADS", "handle_num_threads"),
@@ -953,7 +953,9 @@ def num_threads_table(rep):
     table = [("--pika:threads=all", "all", None, None, ALL), ("--pika:threads=cores", "cores", None, None, CORES), ("--pika:threads=5", "5", None, None, 5),
              ("--pika:threads=5 over pika.os_threads=3", "5", "3", None, 5), ("pika.os_threads=3, no option", None, "3", None, 3),
              ("pika.os_threads=cores, no option", None, "cores", None, CORES), ("pika.os_threads=all, no option", None, "all", None, ALL),
-             ("nothing given", None, None, None, ALL), ("--pika:threads=2 with pika.force_min_os_threads=6", "2", None, 6, 6), ("--pika:threads=0", "0", None, None, "throw")]
+             ("nothing given", None, None, None, ALL), ("--pika:threads=2 with pika.force_min_os_threads=6", "2", None, 6, 6), ("--pika:threads=0", "0", None, None, "throw"),
+             # a zero from any other source (PIKA_THREADS=0, --pika:ini=pika.os_threads=0) is refused as well, not replaced by a positive count
+             ("pika.os_threads=0, no option", None, "0", None, "throw"), ("pika.os_threads=0 with pika.force_min_os_threads=0", None, "0", 0, "throw")]
     for name, cmd, conf, fmin, want in table:
         env = {"$call": model(cmd, conf, fmin)}
         res = interp(fn, env, unknown_both=False)
